@@ -420,4 +420,114 @@ example : parseDuration ⟨⟨2020, 3, 1⟩, 37815⟩ 129600 (S "PT36H") { noFla
     .ok (S "(2020-02-28T22:30:15,2020-03-01T10:30:15,PT36H)") ⟨⟨2020, 2, 28⟩, 81015⟩ ⟨⟨2020, 3, 1⟩, 37815⟩
       ⟨⟨2020, 2, 28⟩, 81015⟩ ⟨⟨2020, 3, 1⟩, 37815⟩ := by decide +kernel
 
+/-! ## `merge_two_time_points` ("from <date> <time> to <date> <time>", "from <date> <time> to <time>", …) -/
+
+theorem lt_false_of_val (b e : DateTime) (hb : proper b) (he : proper e) (h : val b ≤ val e) : e.lt b = false := by
+  rw [Bool.eq_false_iff, ne_eq, lt_iff]
+  have := hb.2; have := he.2
+  unfold val at h
+  omega
+
+/-- **Both ends dated, definite, in order.** The two date-time parsers returned the same value as future and past
+candidate (`b`, `e`) with TIMEX texts that read as exactly those points; then for ALL such points with `b` before `e`:
+the emitted range is `(b, e)` for future and past alike (no reference enters: definite ranges are
+reference-independent), and the TIMEX `(t1,t2,luis_time_span)` is consistent with the values. -/
+theorem merge_both_ok (t1 t2 : Str) (b e : DateTime) (c1 c2 : Bool) (hb : proper b) (he : proper e)
+    (n1 : ∀ x ∈ t1, x ≠ 44) (n2 : ∀ x ∈ t2, x ≠ 44)
+    (hp1 : parsePoint t1 = some (some b.date, some b.secs)) (hp2 : parsePoint t2 = some (some e.date, some e.secs))
+    (hlt : val b < val e) :
+    (mergeTwoTimePoints .both b b t1 e e t2 c1 c2).1 = .ok (triple t1 t2 (luisSpan b e)) b e b e ∧
+    tripleOK (triple t1 t2 (luisSpan b e)) (some (fmtDT b)) (some (fmtDT e)) = true := by
+  refine ⟨?_, span_triple_ok t1 t2 b e _ _ n1 n2 hp1 hp2 (fmtPoint_dt _ _) (fmtPoint_dt _ _) hlt⟩
+  simp only [mergeTwoTimePoints, lt_false_of_val b e hb he (by omega), Bool.false_eq_true, if_false]
+
+/-- the two swap rules of the dated case, for ALL inputs: the future begin is replaced by the past begin exactly when
+it lies after the future end, the past end by the future end exactly when it lies before the past begin. The future
+pair is then in order iff `future_begin ≤ future_end` or `past_begin ≤ future_end`. -/
+theorem merge_both_swap (fb pb fe pe : DateTime) (t1 t2 : Str) (c1 c2 : Bool) :
+    ∃ t, (mergeTwoTimePoints .both fb pb t1 fe pe t2 c1 c2).1 =
+      .ok t (if fe.lt fb then pb else fb) fe pb (if pe.lt pb then fe else pe) := ⟨_, rfl⟩
+
+/-- **Begin dated, end a clock time, in order**: the end is put on the begin's date. `d` = the date of the first point
+(definite: future = past), `sb < se` the two times of day, `tt1` / `tt2` the time parts of the two TIMEX texts
+(`THH`, `THH:MM`, `THH:MM:SS`); the time parser's own date for the second point (the reference day) does not matter. -/
+theorem merge_begin_date_ok (d : Date) (hv : d.valid = true) (tt1 tt2 f1 f2 : Str) (sb se : Nat) (hse : se < 86400)
+    (h1 : timexTime (84 :: tt1) = some f1) (p1 : parseTime f1 = some sb) (l1 : 2 ≤ tt1.length) (n1 : ∀ x ∈ tt1, x ≠ 44)
+    (h2 : timexTime (84 :: tt2) = some f2) (p2 : parseTime f2 = some se) (l2 : 2 ≤ tt2.length) (n2 : ∀ x ∈ tt2, x ≠ 44)
+    (fe pe : DateTime) (hfe : fe.secs = se) (hpe : pe.secs = se) (c1 c2 : Bool) (hlt : sb < se) :
+    (mergeTwoTimePoints .beginHasDate ⟨d, sb⟩ ⟨d, sb⟩ (formatDate d ++ 84 :: tt1) fe pe (84 :: tt2) c1 c2).1 =
+      .ok (triple (formatDate d ++ 84 :: tt1) (formatDate d ++ 84 :: tt2) (luisSpan ⟨d, sb⟩ ⟨d, se⟩))
+        ⟨d, sb⟩ ⟨d, se⟩ ⟨d, sb⟩ ⟨d, se⟩ ∧
+    tripleOK (triple (formatDate d ++ 84 :: tt1) (formatDate d ++ 84 :: tt2) (luisSpan ⟨d, sb⟩ ⟨d, se⟩))
+      (some (fmtDT ⟨d, sb⟩)) (some (fmtDT ⟨d, se⟩)) = true := by
+  have q1 := parsePoint_dt d hv tt1 f1 l1 h1
+  have q2 := parsePoint_dt d hv tt2 f2 l2 h2
+  rw [p1] at q1; rw [p2] at q2
+  refine ⟨?_, span_triple_ok _ _ ⟨d, sb⟩ ⟨d, se⟩ _ _ (no_comma_formatDate_T d tt1 n1) (no_comma_formatDate_T d tt2 n2) q1 q2
+    (fmtPoint_dt _ _) (fmtPoint_dt _ _) (by unfold val; simp only; omega)⟩
+  have w1 := withTime_of d hv fe (by omega)
+  have w2 := withTime_of d hv pe (by omega)
+  simp only [mergeTwoTimePoints, w1, w2, hfe, hpe, splitT_formatDate]
+
+/-- **The defect, as witnesses** (each replayed on the implementation by the pipeline check, classes
+`dtperiod:begin-date:reversed`, `dtperiod:end-date:reversed`, `dtperiod:both-dates:same-day:reversed`): when the end
+clock time is not after the begin clock time nothing rolls the end to the next day; the end lies BEFORE the begin, the
+duration is written with a negative hour count, and the triple is rejected.
+"from tomorrow 11pm to 2am" (reference 2019-06-12 10:30:15; the time parser puts 2am on the reference day): -/
+theorem merge_begin_date_reversed_witness :
+    (mergeTwoTimePoints .beginHasDate ⟨⟨2019, 6, 13⟩, 82800⟩ ⟨⟨2019, 6, 13⟩, 82800⟩ (S "2019-06-13T23")
+        ⟨⟨2019, 6, 12⟩, 7200⟩ ⟨⟨2019, 6, 12⟩, 7200⟩ (S "T02") false false).1 =
+      .ok (S "(2019-06-13T23,2019-06-13T02,PT-21H)") ⟨⟨2019, 6, 13⟩, 82800⟩ ⟨⟨2019, 6, 13⟩, 7200⟩
+        ⟨⟨2019, 6, 13⟩, 82800⟩ ⟨⟨2019, 6, 13⟩, 7200⟩ ∧
+    tripleOK (S "(2019-06-13T23,2019-06-13T02,PT-21H)") (some (S "2019-06-13 23:00:00")) (some (S "2019-06-13 02:00:00")) = false := by
+  decide
+
+/-- "from 5pm to tomorrow 3pm": the begin is put on the END's date, after the end -/
+theorem merge_end_date_reversed_witness :
+    (mergeTwoTimePoints .endHasDate ⟨⟨2019, 6, 12⟩, 61200⟩ ⟨⟨2019, 6, 12⟩, 61200⟩ (S "T17")
+        ⟨⟨2019, 6, 13⟩, 54000⟩ ⟨⟨2019, 6, 13⟩, 54000⟩ (S "2019-06-13T15") false false).1 =
+      .ok (S "(2019-06-13T17,2019-06-13T15,PT-2H)") ⟨⟨2019, 6, 13⟩, 61200⟩ ⟨⟨2019, 6, 13⟩, 54000⟩
+        ⟨⟨2019, 6, 13⟩, 61200⟩ ⟨⟨2019, 6, 13⟩, 54000⟩ ∧
+    tripleOK (S "(2019-06-13T17,2019-06-13T15,PT-2H)") (some (S "2019-06-13 17:00:00")) (some (S "2019-06-13 15:00:00")) = false := by
+  decide
+
+/-- "from tomorrow 9pm to tomorrow 5:15pm": a span of −3 h 45 min is printed as `PT-4H15M` -/
+theorem merge_both_reversed_witness :
+    (mergeTwoTimePoints .both ⟨⟨2019, 6, 13⟩, 75600⟩ ⟨⟨2019, 6, 13⟩, 75600⟩ (S "2019-06-13T21")
+        ⟨⟨2019, 6, 13⟩, 62100⟩ ⟨⟨2019, 6, 13⟩, 62100⟩ (S "2019-06-13T17:15") false false).1 =
+      .ok (S "(2019-06-13T21,2019-06-13T17:15,PT-4H15M)") ⟨⟨2019, 6, 13⟩, 75600⟩ ⟨⟨2019, 6, 13⟩, 62100⟩
+        ⟨⟨2019, 6, 13⟩, 75600⟩ ⟨⟨2019, 6, 13⟩, 62100⟩ ∧
+    tripleOK (S "(2019-06-13T21,2019-06-13T17:15,PT-4H15M)") (some (S "2019-06-13 21:00:00")) (some (S "2019-06-13 17:15:00")) = false := by
+  decide
+
+/-- equal end points give the empty duration `PT`, which the predicate rejects as well (recorded finding `…T04,…T04,PT`) -/
+example : luisSpan ⟨⟨2019, 6, 13⟩, 3600⟩ ⟨⟨2019, 6, 13⟩, 3600⟩ = S "PT" := by decide
+
+/-- an ordered dated pair over several days: "between jan 1 2018 3pm and jan 3 2018 4:30:20pm" -/
+example : (mergeTwoTimePoints .both ⟨⟨2018, 1, 1⟩, 54000⟩ ⟨⟨2018, 1, 1⟩, 54000⟩ (S "2018-01-01T15")
+      ⟨⟨2018, 1, 3⟩, 59420⟩ ⟨⟨2018, 1, 3⟩, 59420⟩ (S "2018-01-03T16:30:20") false false).1 =
+    .ok (S "(2018-01-01T15,2018-01-03T16:30:20,PT49H30M20S)") ⟨⟨2018, 1, 1⟩, 54000⟩ ⟨⟨2018, 1, 3⟩, 59420⟩
+      ⟨⟨2018, 1, 1⟩, 54000⟩ ⟨⟨2018, 1, 3⟩, 59420⟩ := by decide
+
+/-! ## `merge_date_and_time_periods`: a time period on a date -/
+
+/-- **The defect, as witness** (class `dtperiod:date+period:cross-midnight`): "tomorrow from 10pm to 1am" — the time
+period parser resolves 22:00 → 01:00 as three hours across midnight (`(T22,T01,PT3H)`), the date-time period parser
+puts BOTH ends on the one date: the end lies 21 hours before the begin while the TIMEX says three hours after. -/
+theorem date_period_cross_midnight_witness :
+    (mergeDateAndTimePeriod ⟨⟨2019, 6, 13⟩, 0⟩ ⟨⟨2019, 6, 13⟩, 0⟩ (S "2019-06-13") (S "(T22,T01,PT3H)")
+        ⟨⟨2019, 6, 12⟩, 79200⟩ ⟨⟨2019, 6, 12⟩, 3600⟩ false).1 =
+      .ok (S "(2019-06-13T22,2019-06-13T01,PT3H)") ⟨⟨2019, 6, 13⟩, 79200⟩ ⟨⟨2019, 6, 13⟩, 3600⟩
+        ⟨⟨2019, 6, 13⟩, 79200⟩ ⟨⟨2019, 6, 13⟩, 3600⟩ ∧
+    tripleOK (S "(2019-06-13T22,2019-06-13T01,PT3H)") (some (S "2019-06-13 22:00:00")) (some (S "2019-06-13 01:00:00")) = false := by
+  decide
+
+/-- the ordered case is consistent: "tomorrow from 3pm to 5:30pm" -/
+example : (mergeDateAndTimePeriod ⟨⟨2019, 6, 13⟩, 0⟩ ⟨⟨2019, 6, 13⟩, 0⟩ (S "2019-06-13") (S "(T15,T17:30,PT2H30M)")
+      ⟨⟨2019, 6, 12⟩, 54000⟩ ⟨⟨2019, 6, 12⟩, 63000⟩ false).1 =
+    .ok (S "(2019-06-13T15,2019-06-13T17:30,PT2H30M)") ⟨⟨2019, 6, 13⟩, 54000⟩ ⟨⟨2019, 6, 13⟩, 63000⟩
+      ⟨⟨2019, 6, 13⟩, 54000⟩ ⟨⟨2019, 6, 13⟩, 63000⟩ ∧
+    tripleOK (S "(2019-06-13T15,2019-06-13T17:30,PT2H30M)") (some (S "2019-06-13 15:00:00")) (some (S "2019-06-13 17:30:00")) = true := by
+  decide
+
 end RTV.DtPeriod
